@@ -122,6 +122,8 @@ class SimFile:
         fs = self.fs
         sim = fs.sim
         sim.spoint('fs.write')
+        fs._lat('write', self.name, not getattr(self, '_wrote', False))
+        self._wrote = True
         f = fs.faults.hit('fs', op='write', dest=fs.dest_of(self.name), path=self.name)
         if f is not None:
             exc = make_exc(f['exc'], f['id'])
@@ -291,6 +293,16 @@ class SimFS:
         self.buffer_size = getattr(world, 'knobs', {}).get('fs_buffer', 8192)
         self.sticky = {}      # path -> the error every further write-out raises
 
+    def _lat(self, op, path, first=False):
+        """A slow file-system call (network file system, busy disk): the calling
+        thread is away for that long in virtual time while everybody else runs."""
+        fn = getattr(self.world, 'fs_latency', None)
+        if fn is not None:
+            d = fn(op, path, first)
+            if d:
+                self.slow_calls = getattr(self, 'slow_calls', 0) + 1
+                self.sim.sleep(d)
+
     def dest_of(self, path):
         """The tracked destination a path belongs to (itself or its temp)."""
         if path in self.dests:
@@ -323,6 +335,7 @@ class SimFS:
     def open(self, path, mode):
         sim = self.sim
         sim.spoint('fs.open')
+        self._lat('open', path)
         f = self.faults.hit('fs', op='open', dest=self.dest_of(path),
                             mode=mode[0])
         if f is not None:
